@@ -226,5 +226,9 @@ def order_sensitive_inputs(ctx, cls, fn, tr, order):
 
 def hdm_consumers(ctx):
     tr = ctx.trace("HDDDM", "_build_histograms")
-    hs = [a for a in T.walk(tr.retval) if a[0] == "call" and a[1] == "numpy.histogram"] if tr.retval is not None else []
-    ctx.ob("TNT-order", "HistogramDensityMethod._build_histograms", "batch rows are consumed by np.histogram (order-free)", len(hs) == 1, "")
+    # what the returned list holds per feature (loop or comprehension): it must come out of np.histogram
+    hv = q.seq_view(tr, tr.retval) if tr.retval is not None else None
+    src = hv[0] if hv is not None else tr.retval
+    hs = {a for a in T.walk(src) if a[0] == "call" and a[1] == "numpy.histogram"} if src is not None else set()
+    if ctx.anchor("HistogramDensityMethod._build_histograms", "the histograms are a list built once per feature", hv is not None or bool(hs), ""):
+        ctx.ob("TNT-order", "HistogramDensityMethod._build_histograms", "batch rows are consumed by np.histogram (order-free)", len(hs) == 1, "")
